@@ -23,6 +23,14 @@ U = 12345
 STATE_KEYS = ["fds", "environ_ptr", "environ_hash", "cwd_id", "cwd", "umask", "sigmask", "sigact", "ids"]
 
 
+def norm_state(key, v):
+    """descriptor lists name each descriptor by the link text of /proc/self/fd/N: when somebody else unlinks that file meanwhile
+    (it happened to /dev/null during one run) the kernel appends ' (deleted)' - the descriptor itself is the same one"""
+    if key == "fds" and isinstance(v, str):
+        return v.replace(" (deleted)", "")
+    return v
+
+
 def gen_conf(rng, B):
     A = B.logf
     k = rng.random()
@@ -166,7 +174,7 @@ def check_fn(r, evs, B):
         B.count("calls")
         for key in STATE_KEYS:
             for where, ev in (("at-real-exec", rl), ("after-return", en)):
-                if ev.get(key) != b.get(key):
+                if norm_state(key, ev.get(key)) != norm_state(key, b.get(key)):
                     what = key
                     detail = "%r -> %r" % (b.get(key), ev.get(key))
                     if key == "fds":
@@ -289,7 +297,7 @@ def inject_run(arg):
                     continue
                 for key in STATE_KEYS:
                     for where, x in (("at-real-exec", rl), ("after-return", en)):
-                        if x.get(key) != b.get(key):
+                        if norm_state(key, x.get(key)) != norm_state(key, b.get(key)):
                             detail = "%r -> %r" % (b.get(key), x.get(key))
                             if key == "fds":
                                 bs, es = set(b[key].split("|")), set(x[key].split("|"))
